@@ -86,6 +86,15 @@ class ExprGen:
         elif t == "num":
             op = rng.choice(["+", "-", "*", "/", "|", "%", "+", "-", "*"])
             e = Arith(op, self.gen("num", d - 1), self.gen("num", d - 1 if rng.random() < 0.7 else 0))
+        elif t == "bool" and self.env and rng.random() < 0.12:
+            # one and the same element on both sides (directly, or handed through the identity method): equality is decided
+            # by the values — a NaN input is not equal to itself — never by the identity of the element
+            v = rng.choice(sorted(self.env))
+            other = Var(v)
+            if rng.random() < 0.3:
+                self.marker += 1
+                other = Call("Mk", [Num(self.marker), Var(v)])
+            e = Logic(rng.choice(["xeq", "xneq", "eq", "neq", "gte", "lte"]), Var(v), other)
         elif t == "bool":
             k = rng.random()
             if k < 0.4:
@@ -111,7 +120,7 @@ def gen_case(rng):
         t = rng.choice(["num", "num", "num", "bool", "str", "null"])
         env[n] = t
         if t == "num":
-            x = rng.choice(POOL_NUM)
+            x = rng.choice(POOL_NUM) if rng.random() < 0.85 else float("nan")
             inputs[n] = {"t": "num", "bits": "%016x" % G.f2bits(x)}
         elif t == "bool":
             inputs[n] = {"t": "bool", "v": rng.random() < 0.5}
